@@ -1,3 +1,4 @@
+mod binrun;
 mod engine;
 mod findrun;
 mod model;
